@@ -453,6 +453,9 @@ func seqProfile(prop string, rng *simrt.Rng, tier string) (*Profile, map[string]
 		k["fsck_every"] = 0
 		k["dead_sweep"] = 1
 		p.PRestart = 0.04
+		if th && rng.Chance(0.01) {
+			k["exhaust"] = 1 // real inode exhaustion (about a minute of simulation)
+		}
 	case "C09":
 		p.MinOps, p.MaxOps = 20, 100
 		p.W = weights(map[string]int{"write": 30, "create": 12, "mkdir": 8, "symlink": 5, "rename": 12, "setattr": 8})
@@ -953,6 +956,12 @@ func describeIn(in *In) string {
 
 func (seqEngine) Exec(spec *Spec) *Result {
 	res := &Result{}
+	if spec.knob("exhaust", 0) != 0 {
+		res.Viol = exhaustRun(spec, res)
+		res.Nontrivial = true
+		res.count("exhaust_runs", 1)
+		return res
+	}
 	disk := spec.Disk
 	if disk == 0 {
 		disk = smallestDisk() + uint64(spec.knob("data_blocks", 50))
